@@ -30,7 +30,7 @@ ASSUMPTIONS = ["values/extensions are carried verbatim (their letter case is not
 
 QUICK = ["8.3.0", "score_2.0.0", "8.1.0"]
 ALL = hedenv.BUNDLED
-DUP_KINDS = ["duplicate_tag", "duplicate_group"]
+DUP_KINDS = ["duplicate_tag", "duplicate_group", "duplicate_among_same_base"]
 
 
 def strategy(versions):
